@@ -22,30 +22,67 @@ package atree
 
 //@ # ---------------------------------------------------------------- map.go (C02 count, C10 notification / inline decision, C06 prefix)
 
-//@ func (m *OrderedMap) notifyParentIfNeeded() (err)  serves C10
+//@ func (m *OrderedMap) notifyParentIfNeeded() (err)  serves C02 C10 C11
 //@   ghostdef notified == old(notified) + 1
 //@   ensures err == nil && old(m.parentUpdater) == nil ==> m.parentUpdater == nil
-//@   modifies heap, ghost.notified
+//@   # the notification fails only when the updater itself fails: a handle that the parent no longer holds (updater reports
+//@   # not-found) is not an error of the operation on the child
+//@   ensures[C02 C10 C11] err != nil ==> updFail > old(updFail)
+//@   modifies heap, ghost.notified, ghost.updFail
 
+//@ # A5: a digester is a function of the key it was built for: dgKey(d) is that key, dig(key, level) its digest at a level
+//@ ghost dgKey : fn(d Digester) ref
+//@ ghost dig : fn(key ref, level int) Digest
 //@ iface Digester.Digest(level) (d, err)
+//@   conform all
+//@   serves C02 C04
+//@   ensures err == nil ==> d == dig(dgKey(recv), level)
 //@   pure
 
 //@ iface DigesterBuilder.Digest(hip, value) (d, err)
-//@   ensures err == nil ==> d != nil
+//@   conform all
+//@   serves C04
+//@   ensures err == nil ==> d != nil && dgKey(d) == value
 //@   modifies basicDigester.circleHash64, basicDigester.blake3Hash, basicDigester.msg, basicDigester.scratch, alloc
 
 //@ func (m *OrderedMap) setCallbackWithChild(comparator, hip, key, child, maxInlineSize)  serves C10 C11
 //@   modifies Array.parentUpdater, OrderedMap.parentUpdater, alloc
 
-//@ func (m *OrderedMap) set(comparator, hip, key, value) (existing, err)  serves C02 C10
-//@   requires m.Storage != nil && m.root != nil && m.digesterBuilder != nil && hip != nil && comparator != nil && key != nil && value != nil
-//@   ensures[C10] err == nil ==> notified > old(notified)
-//@   modifies heap, ghost.sto, ghost.stored, ghost.touched, ghost.notified, alloc
+//@ pred mapExtra(m *OrderedMap) = ite(is(m.root, *MapDataSlab), as(m.root, *MapDataSlab).extraData, as(m.root, *MapMetaDataSlab).extraData)
 
-//@ func (m *OrderedMap) remove(comparator, hip, key) (k, v, err)  serves C02 C10
-//@   requires m.Storage != nil && m.root != nil && m.digesterBuilder != nil && hip != nil && comparator != nil && key != nil
+//@ # the root is within the size limit (a leaf that is a collision-group slab has no limit)
+//@ pred mapRootFits(m *OrderedMap) = isMapSlab(m.root) &&
+//@      (is(m.root, *MapDataSlab) ==> as(m.root, *MapDataSlab).anySize || as(m.root, *MapDataSlab).header.size <= maxThreshold) &&
+//@      (is(m.root, *MapMetaDataSlab) ==> as(m.root, *MapMetaDataSlab).header.size <= maxThreshold)
+
+//@ # the root slab of m is ready for a keyed operation (assumed: tree invariant at the root)
+//@ pred mapRootReady(m *OrderedMap) = m.Storage != nil && isMapSlab(m.root) &&
+//@      (is(m.root, *MapDataSlab) ==> wfMDSG(as(m.root, *MapDataSlab)) && as(m.root, *MapDataSlab).header.size <= maxThreshold && as(m.root, *MapDataSlab).extraData != nil) &&
+//@      (is(m.root, *MapMetaDataSlab) ==> wfMM(as(m.root, *MapMetaDataSlab)) && mLinked(as(m.root, *MapMetaDataSlab)) && len(as(m.root, *MapMetaDataSlab).childrenHeaders) >= 2 &&
+//@           as(m.root, *MapMetaDataSlab).header.size <= maxThreshold && as(m.root, *MapMetaDataSlab).extraData != nil)
+
+//@ func (m *OrderedMap) set(comparator, hip, key, value) (existing, err)  serves C02 C05 C10
+//@   requires m.Storage != nil && m.root != nil && m.digesterBuilder != nil && hip != nil && comparator != nil && key != nil && value != nil
+//@   assume mapRootReady(m) because "tree invariant at the root (composition)"
 //@   ensures[C10] err == nil ==> notified > old(notified)
-//@   modifies heap, ghost.sto, ghost.stored, ghost.touched, ghost.notified, alloc
+//@   # an over-full root is split before the operation is reported to the parent (and before it returns)
+//@   before[C05] OrderedMap.notifyParentIfNeeded: mapRootFits(m)
+//@   # the element count kept with the root goes up exactly when no previous value existed under the key, and stays with the root
+//@   # through promotion and split
+//@   before[C02] OrderedMap.notifyParentIfNeeded: mapExtra(m) != nil && mapExtra(m) == old(mapExtra(m)) &&
+//@        mapExtra(m).Count == old(mapExtra(m).Count) + ite(existingMapValueStorable == nil, 1, 0)
+//@   # the new child is registered with the inline limit of a value stored under this key
+//@   before[C10] OrderedMap.setCallbackWithChild: maxInlineSize == maxInlineMapElementSize - bs(keyStorable) - 1
+//@   modifies heap, ghost.sto, ghost.issued, ghost.stored, ghost.touched, ghost.notified, ghost.updFail, alloc
+
+//@ func (m *OrderedMap) remove(comparator, hip, key) (k, v, err)  serves C02 C05 C10
+//@   requires m.Storage != nil && m.root != nil && m.digesterBuilder != nil && hip != nil && comparator != nil && key != nil
+//@   assume mapRootReady(m) because "tree invariant at the root (composition)"
+//@   ensures[C10] err == nil ==> notified > old(notified)
+//@   # removal can grow a slab (a collapsed collision group is replaced by its last element): an over-full root is split here too
+//@   before[C05] OrderedMap.notifyParentIfNeeded: mapRootFits(m)
+//@   before[C02] OrderedMap.notifyParentIfNeeded: mapExtra(m) != nil && mapExtra(m) == old(mapExtra(m)) && mapExtra(m).Count == old(mapExtra(m).Count) - 1
+//@   modifies heap, ghost.sto, ghost.issued, ghost.stored, ghost.touched, ghost.notified, ghost.updFail, alloc
 
 //@ func (m *OrderedMap) PopIterate(fn) (err)  serves C02 C06 C09 C10
 //@   requires m.Storage != nil && m.root != nil && fn != nil
@@ -60,7 +97,7 @@ package atree
 //@   # otherwise the parent would keep the inlined copy while a standalone slab is stored as well)
 //@   before[C09 C10] OrderedMap.notifyParentIfNeeded: old(is(m.root, *MapDataSlab)) ==> as(m.root, *MapDataSlab).inlined == old(as(m.root, *MapDataSlab).inlined) &&
 //@        as(m.root, *MapDataSlab).header.slabID == old(as(m.root, *MapDataSlab).header.slabID)
-//@   modifies heap, ghost.sto, ghost.stored, ghost.touched, ghost.notified, alloc
+//@   modifies heap, ghost.sto, ghost.issued, ghost.stored, ghost.touched, ghost.notified, ghost.updFail, alloc
 
 //@ func (m *MapDataSlab) Inlinable(maxInlineSize) (r)  serves C10
 //@   requires m.elements != nil && elsSize(m.elements) <= 4294967000
@@ -72,14 +109,14 @@ package atree
 //@   ensures old(m.inlined) ==> err != nil && isFatal(err)
 //@   ensures err == nil ==> m.inlined && m.header.size == 14 + elsSize(m.elements) && sto == upd(old(sto), m.header.slabID, nil) && m.header.slabID == old(m.header.slabID)
 //@   ensures err != nil ==> m.header == old(m.header) && m.inlined == old(m.inlined) && categorised(err)
-//@   modifies m.header, m.inlined, ghost.sto, ghost.touched, alloc
+//@   modifies m.header, m.inlined, ghost.sto, ghost.issued, ghost.touched, alloc
 
 //@ func (m *MapDataSlab) Uninline(storage) (err)  serves C06 C09 C10
 //@   requires storage != nil && m.elements != nil && elsSize(m.elements) <= 4294967000
 //@   ensures !old(m.inlined) ==> err != nil && isFatal(err) && m.header == old(m.header)
 //@   ensures old(m.inlined) ==> !m.inlined && m.header.size == 2 + elsSize(m.elements) && m.header.slabID == old(m.header.slabID)
 //@   ensures err == nil ==> sto[m.header.slabID] == m && has(stored, m)
-//@   modifies m.header, m.inlined, ghost.sto, ghost.stored, ghost.touched, alloc
+//@   modifies m.header, m.inlined, ghost.sto, ghost.issued, ghost.stored, ghost.touched, alloc
 
 //@ func (m *OrderedMap) Storable(storage, address, maxInlineSize) (st, err)  serves C10
 //@   requires m.Storage != nil && isMapSlab(m.root)
@@ -90,7 +127,7 @@ package atree
 //@   ensures[C10] err == nil && is(m.root, *MapDataSlab) ==> as(m.root, *MapDataSlab).inlined ==
 //@        old(as(m.root, *MapDataSlab).extraData != nil && 14 + elsSize(as(m.root, *MapDataSlab).elements) <= maxInlineSize)
 //@   ensures m.root == old(m.root)
-//@   modifies as(m.root, *MapDataSlab).header, as(m.root, *MapDataSlab).inlined, ghost.sto, ghost.stored, ghost.touched, alloc
+//@   modifies as(m.root, *MapDataSlab).header, as(m.root, *MapDataSlab).inlined, ghost.sto, ghost.issued, ghost.stored, ghost.touched, alloc
 
 //@ # ---- stale handles on the map side (C02, C11): the updater closure re-validates the value stored under the key before writing.
 //@ # mcur(m, key): the value storable currently stored under key (what OrderedMap.get returns), as a function of map and key
@@ -98,6 +135,12 @@ package atree
 //@ ghost mcurErr : fn(m ref, key Value) int
 //@ ghost vidEq : fn(vid ValueID, sid SlabID) bool
 //@ ghost unwrapS : fn(s Storable) ref
+
+//@ func (m *OrderedMap) Get(comparator, hip, key) (v, err)  serves C02 C10 C18
+//@   requires m.Storage != nil && m.root != nil && m.digesterBuilder != nil && hip != nil && comparator != nil && key != nil
+//@   ensures err != nil ==> v == nil
+//@   before[C10] OrderedMap.setCallbackWithChild: maxInlineSize == maxInlineMapElementSize - bs(keyStorable) - 1
+//@   modifies OrderedMap.parentUpdater, Array.parentUpdater, alloc
 
 //@ func (m *OrderedMap) get(comparator, hip, key) (k, v, err)  serves C02
 //@   trusted "lookup result abstracted as mcur(m, key) for the closure contract below; the lookup path itself is covered by the slab-level contracts"
@@ -131,18 +174,29 @@ package atree
 //@   ensures[C02 C11] (old(inlinedC(c)) || old(inlinableC(c, maxInlineSize))) && mcurErr(m, key) == 0 && !is(mcur(m, key), WrapperStorable) &&
 //@        is(mcur(m, key), SlabIDStorable) && !vidEq(vid, SlabID(as(mcur(m, key), SlabIDStorable))) ==> !found && err == nil && mapParentUntouched()
 //@   ensures[C11] !found && err == nil ==> mapParentUntouched()
-//@   modifies heap, ghost.sto, ghost.stored, ghost.touched, ghost.notified, alloc
+//@   modifies heap, ghost.sto, ghost.issued, ghost.stored, ghost.touched, ghost.notified, ghost.updFail, alloc
 
 //@ # ---- bulk pop of a map leaf: identity, inline status and extra data stay; the leaf reports the size of an empty leaf of its kind
 //@ functype MapPopIterationFunc(k, v)
 //@   modifies alloc
 
 //@ iface elements.PopIterate(storage, fn) (err)
-//@   modifies hkeyElements.*, singleElements.*, singleElement.*, inlineCollisionGroup.*, externalCollisionGroup.*, ghost.sto, ghost.stored, ghost.touched, alloc
+//@   conform all
+//@   serves C02 C13
+//@   modifies hkeyElements.*, singleElements.*, singleElement.*, inlineCollisionGroup.*, externalCollisionGroup.*, ghost.sto, ghost.issued, ghost.stored, ghost.touched, alloc
 
 //@ func (m *MapDataSlab) PopIterate(storage, fn) (err)  serves C06 C09
 //@   requires m.elements != nil && fn != nil
 //@   ensures m.inlined == old(m.inlined) && m.extraData == old(m.extraData) && m.header.slabID == old(m.header.slabID) && m.next == old(m.next) && m.elements == old(m.elements)
 //@   ensures[C06] err == nil ==> m.header.firstKey == 0 &&
 //@        m.header.size == ite(m.inlined, inlinedMapDataSlabPrefixSize, ite(m.extraData != nil, mapRootDataSlabPrefixSize, mapDataSlabPrefixSize)) + hkeyElementsPrefixSize
-//@   modifies m.header, hkeyElements.*, singleElements.*, singleElement.*, inlineCollisionGroup.*, externalCollisionGroup.*, ghost.sto, ghost.stored, ghost.touched, alloc
+//@   modifies m.header, hkeyElements.*, singleElements.*, singleElement.*, inlineCollisionGroup.*, externalCollisionGroup.*, ghost.sto, ghost.issued, ghost.stored, ghost.touched, alloc
+
+//@ # ---- type change: an inlined map reports to its parent (the parent slab carries the type), a standalone map - also one whose
+//@ # handle still carries a callback of a former parent - records its own root as dirty (C03 C08 C10 C11)
+//@ pred mapInlinedRoot(m *OrderedMap) = ite(is(m.root, *MapDataSlab), as(m.root, *MapDataSlab).inlined, false)
+//@ func (m *OrderedMap) SetType(typeInfo) (err)  serves C02 C03 C08 C10 C11
+//@   requires m.Storage != nil && isMapSlab(m.root) && mapExtra(m) != nil
+//@   ensures[C10] err == nil && old(mapInlinedRoot(m)) ==> notified > old(notified)
+//@   ensures[C02 C03 C08 C11] err == nil && !old(mapInlinedRoot(m)) ==> has(stored, m.root)
+//@   modifies heap, ghost.sto, ghost.issued, ghost.stored, ghost.touched, ghost.notified, ghost.updFail, alloc
